@@ -839,6 +839,45 @@ func c15Run(c *core.Ctx) {
 			}
 		}
 	}
+	// long lists: n copies (different identifiers) of a rule of about 260 octets / of a description of about 45 octets, for
+	// every n whose serialised list ends within 300 octets of 4096, 8192, 16 384, 32 768 and (rules) 61 440 octets — lists
+	// that run across the block sizes of buffered readers
+	{
+		var cs []qComp
+		for _, t := range []byte{0x10, 0x11, 0x40, 0x41, 0x50, 0x51, 0x30, 0x60, 0x70, 0x83, 0x84, 0x85, 0x86, 0x87, 0x81, 0x82, 0x80} {
+			vs := qCompValues(t)
+			cs = append(cs, qComp{Type: t, Value: vs[len(cs)%len(vs)]})
+			cs = append(cs, qComp{Type: t, Value: vs[(len(cs)+1)%len(vs)]})
+		}
+		one := refRules([]qRule{{ID: 1, Op: 1, Filters: []qFilter{{ID: 1, Dir: 3, Comps: cs}}, Precedence: 1, QFI: 1}})
+		var ps []qParam
+		for _, id := range []byte{1, 2, 3, 4, 5, 6, 7, 2, 3, 4} {
+			vs := qParamValues(id)
+			ps = append(ps, qParam{ID: id, Value: vs[len(ps)%len(vs)]})
+		}
+		oneD := refDescs([]qDesc{{QFI: 1, Op: 1, Params: ps}})
+		for _, T := range []int{4096, 8192, 16384, 32768, 61440} {
+			if !mine() {
+				continue
+			}
+			for n := 1; n <= 255; n++ {
+				if d := n*len(one) - T; d > -300 && d < 300 {
+					var rs []qRule
+					for k := 0; k < n; k++ {
+						rs = append(rs, qRule{ID: uint8(k), Op: 1 + uint8(k%2)*2, Filters: []qFilter{{ID: uint8(k % 16), Dir: 3, Comps: cs}}, Precedence: uint8(k), QFI: uint8(k % 64)})
+					}
+					rules(rs...)
+				}
+				if d := n*len(oneD) - T; d > -120 && d < 120 && T <= 8192 {
+					var ds []qDesc
+					for k := 0; k < n; k++ {
+						ds = append(ds, qDesc{QFI: uint8(k % 64), Op: 1, Params: ps})
+					}
+					descs(ds...)
+				}
+			}
+		}
+	}
 	// rich rules: k filters with m components each (long component lists, large rules), alone and between small rules
 	for k := 1; k <= 15; k++ {
 		if !mine() {
